@@ -40,20 +40,21 @@ conflicts, no new unversioned files; the new shelf id is not among the active
 ones and exceeds them, listing = before + {id}, deletion removes exactly that
 id, the other shelves keep their message.
 
-Findings on the unchanged tree (families computed from the concrete input; the
-model has a Variant flag for each and the flags are PROBED on the code under
-test, so the check stays consistent once a defect is repaired):
-  executable-bit-dropped-by-shelve   a shelved addition / deletion / kind change re-creates or stores a file
+Defects found by this check and repaired in /repo (a282db7, 1264e86, baa43bc); they are
+no longer classified: if one returns it is a plain VIOLATION (the "fix reverted"
+mutants below).  The model keeps a Variant flag for each and the flags are
+PROBED on the code under test (all three select the repaired behaviour on HEAD,
+so `unshelve_restores_fixed` is the theorem that applies; the *_witness
+theorems record the old failing inputs):
+  executable bit dropped by shelve   a shelved addition / deletion / kind change re-created or stored a file
                                      through create_from_tree without its executable bit
-  unshelve-loses-uncommitted-executable-flip
-                                     Merge3Merger._entries3 reads THIS's executable bit from the working tree's
-                                     recorded inventory entry: an uncommitted chmod on a file whose text was
-                                     shelved is lost on unshelve
-  shelved-deletion-path-reoccupied   shelve_deletion takes another versioned file at the deleted file's old path
-                                     for a kept copy (existing_path): shelve --all is refused, shelving only the
-                                     deletion leaves an inventory with two entries for one path
-  unshelve-onto-replaced-path        (only reachable once the previous one is repaired) PreviewTree._path2trans_id
-                                     resolves a path to a deleted entry although a new entry has the name
+  uncommitted chmod lost on unshelve Merge3Merger._entries3 read THIS's executable bit from the working tree's
+                                     recorded inventory entry
+  deletion path reoccupied           shelve_deletion took another versioned file at the deleted file's old path
+                                     for a kept copy (existing_path): shelve --all refused, or an inventory with
+                                     two entries for one path
+  unshelve onto a replaced path      PreviewTree._path2trans_id resolved a path to a deleted entry although a
+                                     new entry had the name
 Not the property (counted in the evidence only): selections that are not closed
 (the stored tree would not be a tree: e.g. a move into an added directory
 without the directory) are accepted and write a shelf that cannot be read
@@ -67,7 +68,8 @@ basis target; Shelver._select_hunks without the `selected = not selected`
 inversion; active_shelves unsorted (last_shelf wrong); shelve_deletion with
 `version = versioned[1]`; _inverse_lines returning the whole working text
 (caught by the stored-tree oracle / model comparison only: the restore itself
-still works).  Equivalent, not caught by design: Merge3(new, work, target)
+still works); the two fix: commits reverted (a282db7 -> plain VIOLATION "after shelving the tree is not ...
+exec" / "cannot be read"; 1264e86 -> plain VIOLATION "unshelving ... does not restore it ... exec").  Equivalent, not caught by design: Merge3(new, work, target)
 with the two sides swapped.  Harmless rewrite kept clean: shelve_change as a
 dispatch table, active_shelves as a comprehension.
 """
@@ -1069,13 +1071,7 @@ def probe_variant():
 
 
 # --------------------------------------------------------------------------
-# finding families (classified from the concrete input)
-
-F_EXEC = "executable-bit-dropped-by-shelve"
-F_STALE = "unshelve-loses-uncommitted-executable-flip"
-F_REOCC = "shelved-deletion-path-reoccupied"
-F_REOCC_U = "unshelve-onto-replaced-path"
-
+# helpers about the selection (no finding family is open: every violation is reported plainly)
 
 def selected_kinds(an, sel):
     by = {}
@@ -1115,25 +1111,6 @@ def reoccupied(an, sel):
         if "delete" in kinds and fid not in W and bp.get(fid) is not None and bp[fid] in taken:
             return True
     return False
-
-
-def classify_exec(an, sel, dd, stage, rec1, w1):
-    """family of an exec-only difference list, or None"""
-    by = selected_kinds(an, sel)
-    fams = set()
-    for fid, attrs, e, g in dd:
-        if attrs != ["exec"]:
-            return None
-        kinds = by.get(fid, set())
-        if stage == 1 and e[4] and not g[4] and kinds & {"delete", "kind", "binary"}:
-            fams.add(F_EXEC)
-        elif stage == 2 and e[4] and not g[4] and kinds & {"add", "kind"}:
-            fams.add(F_EXEC)
-        elif stage == 2 and kinds & {"hunk", "binary", "kind"} and fid in w1 and rec1.get(fid) != w1[fid][4]:
-            fams.add(F_STALE)
-        else:
-            return None
-    return fams.pop() if len(fams) == 1 else None
 
 
 # --------------------------------------------------------------------------
@@ -1187,23 +1164,23 @@ def check_result(ctx, sc, an, enc, sel, via, res, variant):
         ctx.count("refused:" + res["err"])
         if w1 != an["W"] or res["d1"][1] != an["missing"]:
             ctx.violation(case, "shelving failed with %s but the working tree changed: %r" % (
-                res["err"], [(f, a) for f, a, e, g in diff_dumps(an["W"], w1)][:4]), family=F_REOCC if reocc else None)
+                res["err"], [(f, a) for f, a, e, g in diff_dumps(an["W"], w1)][:4]), family=None)
         if res["ids1"] != res["ids0"]:
             ctx.count("stale-shelf-left-by-refused-transform")
         if py_wf(expW1):
             ctx.violation(case, "a selection whose remaining tree is well-formed was refused: %s %s" % (res["err"], res.get("errtext")),
-                          family=F_REOCC if reocc else None)
+                          family=None)
     else:
         if res["d1"][3] == "corrupt":
             ctx.violation(case, "the working tree cannot be read after shelving: %s" % res["d1"][5],
-                          family=F_REOCC if reocc else None)
+                          family=None)
             res["err"] = "E:Corrupt"
             return case, model_line(enc, an, sel, via, variant, {}), is_closed
         dd = diff_dumps(expW1, w1)
         if dd:
             ctx.violation(case, "after shelving the tree is not (basis for the selected changes, working tree for the others): "
                           "%r" % ([(f.decode(), a, e and e[4], g and g[4]) if a == ["exec"] else (f.decode(), a) for f, a, e, g in dd][:4],),
-                          family=classify_exec(an, sel, dd, 1, rec1, w1) or (F_REOCC if reocc else None))
+                          family=None)
         new = set(res["d1"][2]) - set(an["strays"])
         if new:
             ctx.violation(case, "shelving left new unversioned files: %r" % sorted(new))
@@ -1216,18 +1193,18 @@ def check_result(ctx, sc, an, enc, sel, via, res, variant):
         elif "S" in res and diff_dumps(expS, res["S"]):
             dd = diff_dumps(expS, res["S"])
             ctx.violation(case, "the stored shelf tree is not (basis + exactly the selected changes): %r" % (
-                [(f.decode(), a) for f, a, e, g in dd][:4],), family=classify_exec(an, sel, dd, 2, rec1, w1))
+                [(f.decode(), a) for f, a, e, g in dd][:4],), family=None)
         elif "uerr" in res:
-            ctx.violation(case, "unshelving failed: %s %s" % (res["uerr"], res.get("uerrtext")), family=F_REOCC_U if reocc else None)
+            ctx.violation(case, "unshelving failed: %s %s" % (res["uerr"], res.get("uerrtext")), family=None)
         else:
             w2 = res["d2"][0]
             dd = diff_dumps(an["W"], w2)
             if dd:
                 ctx.violation(case, "unshelving onto the unchanged tree does not restore it: %r" % (
                     [(f.decode(), a, e and e[4], g and g[4]) if a == ["exec"] else (f.decode(), a) for f, a, e, g in dd][:4],),
-                    family=classify_exec(an, sel, dd, 2, rec1, w1) or (F_REOCC_U if reocc else None))
+                    family=None)
             if res["nconf"] or res["d2"][3]:
-                ctx.violation(case, "unshelving reported %r conflicts" % (res["nconf"] or res["d2"][3]), family=F_REOCC_U if reocc else None)
+                ctx.violation(case, "unshelving reported %r conflicts" % (res["nconf"] or res["d2"][3]), family=None)
             new = set(res["d2"][2]) - set(an["strays"])
             if new:
                 ctx.violation(case, "unshelving left new unversioned files: %r" % sorted(new))
